@@ -10,7 +10,7 @@ VARIABLES tid, l, verdict
 Act(e) == CASE e.a = "away" -> SetBreezeAway(e.v # 0) [] e.a = "mild" -> SetBreezeMild(e.v # 0) [] e.a = "less" -> SetBreezeless(e.v # 0)
             [] e.a = "ieco" -> SetIeco(e.v # 0) [] e.a = "beep" -> SetBeep(e.v # 0)
             [] e.a = "rate" -> SetRate(e.v) [] e.a = "lr" -> SetLR(e.v) [] e.a = "ud" -> SetUD(e.v)
-            [] e.a = "apply" -> Apply [] e.a = "refresh" -> Refresh [] e.a = "caps" -> GetCaps [] e.a = "selfclean" -> StartSelfClean [] e.a = "cleandone" -> CleanDone
+            [] e.a = "apply" -> Apply [] e.a = "refresh" -> Refresh [] e.a = "caps" -> GetCaps [] e.a = "selfclean" -> StartSelfClean [] e.a = "cleandone" -> CleanDone [] e.a = "caps1" -> GetCapsPage1
 
 (* bytes of a property value on the wire, from the raw register value of AcDevice!Enc (vendor layout: iECO = frame 0, number 1, switch, 10 zeros) *)
 RawBytes(id, raw) == IF id = PIECO THEN <<0, 1, raw>> \o Zeros(10) ELSE <<raw>>
@@ -51,7 +51,7 @@ AttrClause(e, a) ==
   ELSE IF e.attrs.clean # a.clean THEN "self clean differs (" \o e.a \o ")"
   ELSE "ok"
 SupClause(e, s) ==
-  IF e.a # "caps" THEN "ok"
+  IF e.a \notin {"caps", "caps1"} THEN "ok"
   ELSE IF e.sup.away # (PAWAY \in s \/ PCTL \in s) \/ e.sup.mild # (PCTL \in s) \/ e.sup.less # (PLESS \in s \/ PCTL \in s)
           \/ e.sup.ieco # (PIECO \in s) \/ e.sup.lr # (PLR \in s) \/ e.sup.ud # (PUD \in s) \/ e.sup.clean # (PCLEAN \in s)
        THEN "supports_* flags differ from the advertised capabilities" ELSE "ok"
